@@ -364,6 +364,19 @@ def gDiff (xs : List Triple) (inB : Triple → Bool) (r : Nat) : Mem :=
 def gXor (xs : List Triple) (inA : Triple → Bool) (ys : List Triple) (inB : Triple → Bool) (r : Nat) : Mem :=
   gUnion ((gDiff xs inB r).graph r) ((gDiff ys inA r).graph r) r
 
+/-- a graph as the binary operators see it, whatever store it lives on: its iteration and its `in` test -/
+structure View where
+  xs : List Triple
+  has : Triple → Bool
+
+def View.ofMem (m : Mem) (g : Nat) : View := ⟨m.graph g, fun x => m.contains x g⟩
+
+/-- the four operators on two views (`r` = identifier of the new graph) -/
+def View.union (a b : View) (r : Nat) : Mem := gUnion a.xs b.xs r
+def View.diff (a b : View) (r : Nat) : Mem := gDiff a.xs b.has r
+def View.inter (a b : View) (r : Nat) : Mem := gInter a.has b.xs r
+def View.xor (a b : View) (r : Nat) : Mem := gXor a.xs a.has b.xs b.has r
+
 /-- mutating operations of a history (all through `Graph` objects sharing one `Memory`) -/
 inductive Op
   | add (t : Triple) (g : Nat)
@@ -469,6 +482,12 @@ def yields (hist : List Mem) (m : Mem) (it : Iter) : List Ev → List (Triple ×
     | some t => (t, hist) :: yields hist m (it.next m).1 es
     | none => yields hist m (it.next m).1 es
 
+/-- number of `next` steps of a schedule -/
+def countNext : List Ev → Nat
+  | [] => 0
+  | .next :: es => countNext es + 1
+  | _ :: es => countNext es
+
 /-- some step of the schedule raised -/
 def schedRaises (m : Mem) (it : Iter) : List Ev → Bool
   | [] => false
@@ -536,6 +555,8 @@ def SMem.iadd (m : SMem) (ts : List Triple) : SMem := ts.foldl SMem.add m
 def SMem.isub (m : SMem) : List Triple → SMem
   | [] => m
   | t :: r => SMem.isub (m.remove (some t.1, some t.2.1, some t.2.2)) r
+
+def View.ofSimple (m : SMem) : View := ⟨m.triples allPat, fun x => m.contains x⟩
 
 inductive SOp
   | add (t : Triple)
